@@ -876,6 +876,10 @@ func (sc *specCtx) call(n *SCall) SV {
 			return v
 		}
 		return sc.fail("thisfn() used outside a function-type contract")
+	case "disjointSlices":
+		// disjointSlices(s, t): the two slices do not share a backing array (or one has no storage)
+		a, b := sc.mat(arg(0)), sc.mat(arg(1))
+		return SV{T: fmt.Sprintf("(or (not (= (sl_base %s) (sl_base %s))) (= (sl_cap %s) 0) (= (sl_cap %s) 0))", a, b, a, b), Ty: boolT}
 	case "sameBacking":
 		// sameBacking(s, t): slices s and t share base, offset and capacity (t is s re-sliced in length only)
 		a, b := sc.mat(arg(0)), sc.mat(arg(1))
